@@ -80,6 +80,8 @@ PROBES = [
     ("root-supplied-overrides-definition", "type Query { zzz: Int }", [obj("Query", [("x", N("E"))]), E], {},
      {"members": {"Query": ["x"], "E": ["A"]}, "query": "Query"}),
     ("root-by-schema-block", "schema { query: O }", [O], {}, {"members": {"O": ["x"]}, "query": "O"}),
+    ("referenced-from-extensions-only", "type Query { q: Int } extend type Query { o: O s(s: S = 5): S e(a: E = A, i: I = {}): E }", [O, scalar("S"), E, I], {},
+     {"members": {"O": ["x"], "S": [], "E": ["A"], "I": ["a"], "Query": ["q", "o", "s", "e"]}, "defaults": {"Query.e.a": 1, "Query.e.i": {"a": 1}, "Query.s.s": "5"}}),
     ("extend-supplied-enum", "type Query { q: E } extend enum E { B } extend enum E { C }", [E], {},
      {"members": {"E": ["A", "B", "C"]}, "values": {"E.A": 1, "E.B": "B", "E.C": "C"}}),
     ("extend-supplied-enum-default-in-extension-field", "type Query { q: Int } enum E { A } extend enum E { B } extend type Query { f(a: E = B): Int }",
